@@ -244,15 +244,44 @@ class Effects:
                 for ch in ast.iter_child_nodes(n):
                     parents[id(ch)] = n
             f._parents = parents
+        # path condition of the call: enclosing if / conditional-expression tests (true side) and earlier `and` operands,
+        # with single-definition locals substituted; the draw is a NaN tie-break when that condition has (at least) two
+        # positive isnan(...) conjuncts on different operands
+        from .core import local_defs, _Subst
+        import copy
+
+        defs = local_defs(f)
+        conds = []
         cur = call
-        guards = 0
         while id(cur) in parents:
             par = parents[id(cur)]
             if isinstance(par, ast.If) and any(cur is x for x in par.body):
-                if any(isinstance(c, ast.Call) and norm(c.func).split(".")[-1] == "isnan" for c in ast.walk(par.test)):
-                    guards += 1
+                conds.append(par.test)
+            elif isinstance(par, ast.If) and any(cur is x for x in par.orelse):
+                conds.append(ast.UnaryOp(op=ast.Not(), operand=par.test))
+            elif isinstance(par, ast.IfExp) and cur is par.body:
+                conds.append(par.test)
+            elif isinstance(par, ast.IfExp) and cur is par.orelse:
+                conds.append(ast.UnaryOp(op=ast.Not(), operand=par.test))
+            elif isinstance(par, ast.BoolOp) and isinstance(par.op, ast.And):
+                idx = next((i for i, v in enumerate(par.values) if v is cur), 0)
+                conds.extend(par.values[:idx])
             cur = par
-        return guards >= 2
+        atoms = set()
+
+        def positive_conjuncts(e):
+            e = _Subst(defs, 3).visit(copy.deepcopy(e))
+            if isinstance(e, ast.BoolOp) and isinstance(e.op, ast.And):
+                for v in e.values:
+                    positive_conjuncts(v)
+            elif isinstance(e, ast.Call) and norm(e.func).split(".")[-1] == "isnan" and e.args:
+                atoms.add(norm(e.args[0]))
+            elif isinstance(e, ast.Call) and norm(e.func) == "bool" and len(e.args) == 1:
+                positive_conjuncts(e.args[0])
+
+        for c in conds:
+            positive_conjuncts(c)
+        return len(atoms) >= 2
 
     @staticmethod
     def _flatten(t):
